@@ -877,9 +877,9 @@ def put_model(mjm: mujoco.MjModel, batch_sizes: dict[str, int] | None = None) ->
     (mjm.sensor_needstage == mujoco.mjtStage.mjSTAGE_ACC)
     & (
       (mjm.sensor_type != mujoco.mjtSensor.mjSENS_TOUCH)
-      | (mjm.sensor_type != mujoco.mjtSensor.mjSENS_JOINTLIMITFRC)
-      | (mjm.sensor_type != mujoco.mjtSensor.mjSENS_TENDONLIMITFRC)
-      | (mjm.sensor_type != mujoco.mjtSensor.mjSENS_TENDONACTFRC)
+      & (mjm.sensor_type != mujoco.mjtSensor.mjSENS_JOINTLIMITFRC)
+      & (mjm.sensor_type != mujoco.mjtSensor.mjSENS_TENDONLIMITFRC)
+      & (mjm.sensor_type != mujoco.mjtSensor.mjSENS_TENDONACTFRC)
     )
   )[0]
   m.sensor_rangefinder_adr = np.nonzero(mjm.sensor_type == mujoco.mjtSensor.mjSENS_RANGEFINDER)[0]
